@@ -706,18 +706,177 @@ def strip_stream(rng, n):
                {"padding": rng.choice([None, None, 0, 2]), "align": rng.choice([None, None, 0, 16])}]
 
 
-PREDICATES = {"axis": p_axis, "reproject": p_reproject, "crs_scale": p_crs_scale}
+def pyproj_dst2src(src, dst, px, py):
+    """independent reference: destination pixel-plane points -> source pixel-plane points with numpy and
+    pyproj only (own 3x3 matrices, own Transformer with always_xy=True; nothing from odc.geo)"""
+    import numpy as np
+    from pyproj import Transformer
+
+    def mat(g):
+        a, b, c, d, e, f = tuple(g.transform)[:6]
+        return np.array([[a, b, c], [d, e, f], [0.0, 0.0, 1.0]])
+
+    D, S = mat(dst), np.linalg.inv(mat(src))
+    X = D[0, 0] * px + D[0, 1] * py + D[0, 2]
+    Y = D[1, 0] * px + D[1, 1] * py + D[1, 2]
+    if src.crs.to_wkt() != dst.crs.to_wkt():
+        X, Y = Transformer.from_crs(dst.crs.to_wkt(), src.crs.to_wkt(), always_xy=True).transform(X, Y)
+    return S[0, 0] * X + S[0, 1] * Y + S[0, 2], S[1, 0] * X + S[1, 1] * Y + S[1, 2]
+
+
+def check_inclusion_pyproj(src, dst, r, step=1, sliver=0.0):
+    """every step-th destination pixel (plus the last row/column) whose centre maps inside the source
+    (by more than 1e-6 px) must lie in roi_dst and its source pixel in roi_src.  Missed pixels whose source
+    location is less than `sliver` source pixels inside the source edge are not a violation here; they are
+    reported as ' EDGE-SLIVER ...' in the message (open finding crs-edge-sliver)."""
+    import numpy as np
+    (ny, nx), (my, mx) = src.shape, dst.shape
+    (sy0, sy1), (sx0, sx1) = [(s.start, s.stop) for s in r.roi_src]
+    (dy0, dy1), (dx0, dx1) = [(s.start, s.stop) for s in r.roi_dst]
+    if not (0 <= sy0 <= sy1 <= ny and 0 <= sx0 <= sx1 <= nx and 0 <= dy0 <= dy1 <= my and 0 <= dx0 <= dx1 <= mx):
+        return False, ": region outside its image"
+    if mx == 0 or my == 0:
+        return True, ""
+    ys = np.unique(np.r_[np.arange(0, my, step), my - 1])
+    xs = np.unique(np.r_[np.arange(0, mx, step), mx - 1])
+    py, px = np.meshgrid(ys, xs, indexing="ij")
+    ux, uy = pyproj_dst2src(src, dst, (px + 0.5).ravel().astype("float64"), (py + 0.5).ravel().astype("float64"))
+    ux, uy = ux.reshape(px.shape), uy.reshape(px.shape)
+    eps = 1e-6
+    with np.errstate(invalid="ignore"):
+        needed = np.isfinite(ux) & np.isfinite(uy) & (ux > eps) & (ux < nx - eps) & (uy > eps) & (uy < ny - eps)
+    kx, ky = np.floor(np.where(needed, ux, 0)).astype("int64"), np.floor(np.where(needed, uy, 0)).astype("int64")
+    ok_dst = (px >= dx0) & (px < dx1) & (py >= dy0) & (py < dy1)
+    ok_src = (kx >= sx0) & (kx < sx1) & (ky >= sy0) & (ky < sy1)
+    miss = needed & ~(ok_dst & ok_src)
+    with np.errstate(invalid="ignore"):
+        depth = np.minimum(np.minimum(ux, nx - ux), np.minimum(uy, ny - uy))
+    deep = miss & (depth >= sliver)
+    if deep.any():
+        j, i = np.argwhere(deep)[0]
+        return False, (f": {int(deep.sum())} of {int(needed.sum())} sampled needed pixels are not covered, e.g. destination pixel "
+                       f"(x={int(px[j, i])},y={int(py[j, i])}) maps to source ({ux[j, i]:.3f},{uy[j, i]:.3f})")
+    msg = f" ({int(needed.sum())} needed pixels sampled)"
+    if miss.any():
+        j, i = np.argwhere(miss)[0]
+        msg += (f" EDGE-SLIVER {int(miss.sum())} needed pixels within {float(depth[miss].max()):.3f} source px of the source edge "
+                f"are not covered, e.g. destination pixel (x={int(px[j, i])},y={int(py[j, i])}) -> source ({ux[j, i]:.3f},{uy[j, i]:.3f})")
+    return True, msg
+
+
+def mk_gbox(crs, shape, aff):
+    from affine import Affine
+    from odc.geo.geobox import GeoBox
+    return GeoBox(tuple(shape), Affine(*aff), crs)
+
+
+def p_crs_inclusion(src_crs, src_shape, src_aff, dst_crs, dst_shape, dst_aff, kw, step, sliver=1.0):
+    """different CRS, explicit (possibly continental) grids: inclusion on a subsample of destination pixels,
+    reference = pyproj called directly; plus the scale clause.  sliver: see check_inclusion_pyproj - the
+    unchanged code is known to drop needed pixels that map less than half a (>= 10 km) source pixel inside
+    a strongly curved source edge (open finding crs-edge-sliver); sliver=0 states the property in full."""
+    from odc.geo.overlap import compute_reproject_roi
+    src, dst = mk_gbox(src_crs, src_shape, src_aff), mk_gbox(dst_crs, dst_shape, dst_aff)
+    with warnings.catch_warnings():
+        warnings.simplefilter("ignore")
+        r = compute_reproject_roi(src, dst, **kw)
+    why = f"roi_src={r.roi_src} roi_dst={r.roi_dst} scale={r.scale!r} read_shrink={r.read_shrink}"
+    ok, msg = check_inclusion_pyproj(src, dst, r, step, sliver)
+    if not ok:
+        return False, why + msg
+    ok2, msg2 = check_crs_scale(src, dst, r)
+    return ok2, why + msg + msg2
+
+
+def continental_stream(rng, n):
+    """continental-size equal-area / conic / Mercator sources whose footprint ends INSIDE a larger lon/lat
+    (or other) destination canvas: roi_dst is decided by the curved projected source edges"""
+    from pyproj import Transformer
+    bases = [
+        ("EPSG:3577", (-2000000.0, -1200000.0, 4000000.0, 3000000.0)),     # Australian Albers
+        ("EPSG:3035", (2600000.0, 1600000.0, 3000000.0, 3000000.0)),        # European LAEA
+        ("EPSG:5070", (-2200000.0, 400000.0, 4200000.0, 2600000.0)),        # CONUS Albers
+        ("EPSG:6933", (-3000000.0, 1000000.0, 6000000.0, 5000000.0)),       # EASE-2 global equal area
+        ("EPSG:3857", (-1000000.0, 4000000.0, 4000000.0, 5000000.0)),       # Web Mercator, Europe
+    ]
+    for i in range(n):
+        crs, (x0, y0, w, h) = bases[i % len(bases)]
+        res = rng.choice([10000.0, 12500.0, 20000.0])
+        fx, fy = rng.uniform(0.6, 1.0), rng.uniform(0.6, 1.0)
+        ox, oy = rng.uniform(0, 1 - fx) * w, rng.uniform(0, 1 - fy) * h
+        nx, ny = int(w * fx / res), int(h * fy / res)
+        src_aff = [res, 0.0, x0 + ox, 0.0, -res, y0 + oy + ny * res]
+        dcrs = "EPSG:4326" if crs != "EPSG:3857" or rng.random() < 0.5 else "EPSG:3035"
+        tr = Transformer.from_crs(crs, dcrs, always_xy=True)
+        ex = [tr.transform(src_aff[2] + u * nx * res, src_aff[5] - v * ny * res) for u in (0, 0.25, 0.5, 0.75, 1) for v in (0, 0.25, 0.5, 0.75, 1)]
+        lx, ly = [p[0] for p in ex], [p[1] for p in ex]
+        if dcrs == "EPSG:4326":
+            dres, buf = rng.choice([0.1, 0.125, 0.25]), rng.uniform(2.0, 5.0)
+        else:
+            dres, buf = rng.choice([10000.0, 20000.0]), rng.uniform(200000.0, 500000.0)
+        X0, X1, Y0, Y1 = min(lx) - buf, max(lx) + buf, min(ly) - buf, max(ly) + buf
+        if dcrs == "EPSG:4326":
+            X0, X1, Y0, Y1 = max(X0, -179.0), min(X1, 179.0), max(Y0, -84.0), min(Y1, 84.0)
+        dnx, dny = int((X1 - X0) / dres), int((Y1 - Y0) / dres)
+        if not (4 <= dnx <= 1500 and 4 <= dny <= 1500):
+            continue
+        yield [crs, [ny, nx], src_aff, dcrs, [dny, dnx], [dres, 0.0, X0, 0.0, -dres, Y1],
+               {"padding": rng.choice([None, None, 1, 2]), "align": rng.choice([None, None, 4])}, 3]
+
+
+def p_crs_history(zone, south, history, seed):
+    """an earlier public call CRS.transformer_to_crs(other, always_xy=...) on the same CRS pair must not change
+    later planning: UTM zone <-> EPSG:4326 (lat/lon authority axis order), dense inclusion check with pyproj"""
+    from odc.geo.crs import CRS
+    from odc.geo.overlap import compute_reproject_roi
+    from pyproj import Transformer
+    rng = core.rng(f"c03-hist-{seed}")
+    utm = f"EPSG:{(32700 if south else 32600) + zone}"
+    lon0 = -183.0 + 6 * zone
+    lat = rng.uniform(5, 60) * (-1 if south else 1)
+    e0, n0 = Transformer.from_crs("EPSG:4326", utm, always_xy=True).transform(lon0 + rng.uniform(-1, 1), lat)
+    res = rng.choice([100.0, 250.0, 1000.0])
+    u = mk_gbox(utm, [rng.randint(8, 30), rng.randint(8, 30)], [res, 0.0, round(e0, -2), 0.0, -res, round(n0, -2)])
+    ll = Transformer.from_crs(utm, "EPSG:4326", always_xy=True)
+    cs = [ll.transform(u.transform.c + a * u.shape[1] * res, u.transform.f - b * u.shape[0] * res) for a in (0, 1) for b in (0, 1)]
+    gx0, gx1 = min(c[0] for c in cs), max(c[0] for c in cs)
+    gy0, gy1 = min(c[1] for c in cs), max(c[1] for c in cs)
+    m = rng.randint(10, 30)
+    dres = max(gx1 - gx0, gy1 - gy0) / m
+    g = mk_gbox("EPSG:4326", [int((gy1 - gy0) / dres) + 5, int((gx1 - gx0) / dres) + 5],
+                [dres, 0.0, gx0 - 2 * dres, 0.0, -dres, gy1 + 3 * dres])
+    src, dst = (u, g) if rng.random() < 0.5 else (g, u)
+    for direction, axy in history:
+        a, b = (src.crs, dst.crs) if direction == "fwd" else (dst.crs, src.crs)
+        CRS(str(a)).transformer_to_crs(CRS(str(b)), always_xy=bool(axy))
+    with warnings.catch_warnings():
+        warnings.simplefilter("ignore")
+        r = compute_reproject_roi(src, dst)
+    why = f"history={history} src={src!r} dst={dst!r} roi_src={r.roi_src} roi_dst={r.roi_dst} scale={r.scale!r}"
+    ok, msg = check_inclusion_pyproj(src, dst, r, 1)
+    if ok and "needed" in msg and msg.startswith(" (0 "):
+        return False, why + ": generator produced a pair without overlap"
+    if not ok:
+        return False, why + msg
+    ok2, msg2 = check_crs_scale(src, dst, r)
+    return ok2, why + msg + msg2
+
+
+PREDICATES = {"axis": p_axis, "reproject": p_reproject, "crs_scale": p_crs_scale, "crs_inclusion": p_crs_inclusion,
+              "crs_history": p_crs_history}
 
 
 def search(out, tier):
     rng = core.rng("c03-search")
     found = {}
+    last = {}
 
     def run(name, *args):
         try:
             ok, detail = PREDICATES[name](*args)
         except Exception as e:
             ok, detail = False, f"raised {type(e).__name__}: {e}"
+        last["detail"] = detail
         out.count("predicate:" + name)
         out.case(("pred", name, repr(args)), True)
         if not ok and name not in found:
@@ -727,6 +886,8 @@ def search(out, tier):
         return ok
 
     for rp in core.corpus(ID):
+        if rp.get("open_key"):
+            continue
         if rp["predicate"] in PREDICATES:
             run(rp["predicate"], *dec(rp["args"]))
         elif rp["predicate"] == "reproject_big":
@@ -790,6 +951,37 @@ def search(out, tier):
     for args in strip_stream(rng, 40 if tier == "quick" else 400):
         out.count("search-family:crs-strip")
         run("crs_scale", *args)
+    # different CRS, continental sources ending inside the destination canvas (curved projected edges)
+    slivers = []
+    for args in continental_stream(rng, 25 if tier == "quick" else 300):
+        out.count("search-family:crs-continental")
+        run("crs_inclusion", *args)
+        detail = last["detail"]
+        if "EDGE-SLIVER" in detail:
+            slivers.append((args, detail[detail.index("EDGE-SLIVER"):]))
+    # open finding: replay its recorded witness, report through the known-findings channel once it is listed
+    for rp in core.corpus(ID):
+        if rp.get("open_key") == "crs-edge-sliver":
+            ok_w, detail_w = p_crs_inclusion(*rp["args"])
+            out.count("predicate:crs_inclusion(open witness)")
+            if not ok_w:
+                slivers.append((rp["args"], detail_w))
+    if slivers:
+        out.notes.append(f"open finding crs-edge-sliver: {len(slivers)} continental cross-CRS plan(s) drop needed destination pixels that map "
+                         f"less than one source pixel inside a curved source edge; first: {slivers[0][1][:300]}")
+        if "crs-edge-sliver" in core.open_findings(ID):
+            out.violation("crs-edge-sliver", slivers[0][1], {"predicate": "crs_inclusion", "args": slivers[0][0][:8] + [0.0],
+                                                             "observed": slivers[0][1]})
+    # histories: an earlier public transformer_to_crs call (either axis order, either direction) on the same
+    # CRS pair must not change planning; every case uses a UTM zone not touched before in this process
+    hists = [[["fwd", False]], [["rev", False]], [["fwd", False], ["fwd", True]], [["rev", False], ["fwd", False]],
+             [["fwd", True], ["rev", False]], [["rev", True], ["fwd", False], ["rev", False]]]
+    zones = [z for z in range(1, 61) if z not in (32, 33, 34, 55)]
+    rng.shuffle(zones)
+    nh = 12 if tier == "quick" else 56
+    for i in range(nh):
+        out.count("search-family:crs-history")
+        run("crs_history", zones[i % len(zones)], i % 2 == 1, hists[i % len(hists)], i)
     # different CRS: dense check of the enclosing hypothesis
     m = 12 if tier == "quick" else 240
     worst = None
@@ -849,6 +1041,9 @@ def run(out, tier, scratch):
         "binary64 arithmetic abstracted to exact rationals; correspondence restricted to inputs on which every float operation is exact",
         "sqrt(x*x) = |x| in binary64 (used for axis-aligned transforms in get_scale_from_linear_transform)",
         "different CRS: the PROJ point transform and get_scale_at_point are oracles; inclusion holds under H_boundary_encloses (tested, not proved)",
+        "different CRS inclusion on continental grids and after transformer_to_crs histories: judged against pyproj called directly "
+        "(own affine matrices, own Transformer), pixels within 1e-6 px of the source edge excluded; on continental grids misses less than "
+        "one (>= 10 km) source pixel inside the edge belong to the open finding crs-edge-sliver",
         "different CRS scale: judged against pyproj central differences (step 1 px) at the centre of roi_dst with relative tolerance 1e-6 "
         "(same stencil as the code's least-squares fit; observed agreement <= 1e-10 for pixel coordinates up to 3e4)",
     ]
